@@ -56,12 +56,17 @@ def main():
     nprecs = json.load(open(npapi))
     sprecs = json.load(open(npapi.replace("npapi", "spapi")))
     nprecs_all = nprecs + sprecs
+    redrecs = json.load(open(npapi.replace("npapi", "npreduce")))
+    red_bad = [r for r in redrecs if r["out"].get("kind") != "elements"]
+    if red_bad:
+        raise RuntimeError(f"T6: {len(red_bad)} reductions did not run symbolically, e.g. {json.dumps(red_bad[0])[:600]}")
     np_bad = [r for r in nprecs_all if r["np"].get("kind") in ("abort", "other") or r["py"].get("kind") in ("abort", "other")]
     if np_bad:
         raise RuntimeError(f"T6: {len(np_bad)} program points could not be described symbolically, e.g. {json.dumps(np_bad[0])[:600]}")
     from tools.vtrace import emit_nb
     api_v, names_v, bin_v, more = emit_obj.emit(recs, ir, extra=lambda simp: dict(emit_nb.emit(nbrecs, simp), **emit_nb.emit_np(nprecs, simp),
-                                                                                   **emit_nb.emit_np(sprecs, simp, prefix="Sp", tab="sp_tab", what="T6): the SymPy backend's glue executed with the recording lib, next to the object backend")))
+                                                                                   **emit_nb.emit_np(sprecs, simp, prefix="Sp", tab="sp_tab", what="T6): the SymPy backend's glue executed with the recording lib, next to the object backend"),
+                                                                                   **emit_nb.emit_reduce(redrecs, simp)))
     for fn, txt in more.items():
         ch.append(emit.write_if_changed(os.path.join(gen, fn), txt))
     import glob
